@@ -16,6 +16,9 @@ def describe(case, row):
         op = p.split(":")[0].split("(")[0]
         if c["fault"] == "eval":
             return ":panic:%s:eval:%s:%s:%s" % (op, c["op"], c["a"], c["b"])
+        if c["fault"] == "source":
+            import re
+            return ":panic:%s:source:%s" % (op, re.sub(r"[0-9a-f]{8,}", "<hex>", c["src"])[:50])
         if c["fault"] == "eval_snippet":
             return ":panic:%s:eval:%s" % (op, c["src"][:40])
         return ":panic:%s:%s" % (op, c["fault"])
@@ -69,9 +72,10 @@ def run(tier, seed):
     return ctx.finish(
         rule="Fault enumeration: adversarial but well-formed contents (13 binary operators x 7 x 7 extreme integer operands, written in the expression or supplied by "
              "joined facts; 33 expression snippets: invalid / huge regexes, out-of-range get(), type errors inside closures, shadowed closure parameters, errors under lazy "
-             "operators and try_or, unknown extern functions) and 35 structural faults (unresolvable symbol / predicate / key / variable ids, malformed operation sequences and closures, unknown operator kinds, versions 0, 2, 7, "
-             "2^32-1 and absent, redeclared symbols and keys, empty oneofs, ill-formed sets, empty / garbage payloads, deep nesting, 50k symbols) x 3 positions (authority, first-party "
-             "block, third-party block), each minted as a correctly signed token; on each, every public operation of Biscuit, UnverifiedBiscuit and Authorizer incl. all accessor "
+             "operators and try_or, unknown extern functions), 56 Datalog-source snippets through every parser entry point (invalid public keys, out-of-range integers and dates, "
+             "odd-length hex, nested / duplicate collection members, unbound variables, truncated text) and 35 structural faults (unresolvable symbol / predicate / key / variable ids, malformed operation sequences and closures, unknown operator kinds, versions 0, 2, 7, "
+             "2^32-1 and absent, redeclared symbols and keys, empty oneofs, ill-formed sets, empty / garbage payloads, deep nesting, 50k symbols) x 5 positions (authority, first-party "
+             "block, third-party block of a correctly signed token; a token block and the authorizer block of an authorizer SNAPSHOT); on each, every public operation of Biscuit, UnverifiedBiscuit and Authorizer incl. all accessor "
              "indices 0..3 and usize::MAX, snapshot round trip, attenuation and sealing (about 75 operations). Oracle: no panic, no hang, faults the spec places before evaluation "
              "are refused by authorizer(). Plus seeded byte-level corruption of tokens, requests, third-party blocks, snapshots, policies, key strings, PEM and Datalog source, and "
              "recursion-depth probes in child processes. distinct_nontrivial = (fault, position) cases.")
